@@ -222,7 +222,10 @@ class C03(core.Check):
         "Grading.inverted (also: the same Chop object added twice, inverted in place in between; inverted/count read between additions "
         "and twice at the end). history cases (round 2): ONE Chop object through 2..8 calls of calculate(L) / calculate(other length) / "
         "invert() / attribute assignment, for every pair (fixed list: evaluate-reverse-evaluate on the same edge, double reversal, "
-        "alternating lengths, reverse first) and random ones; the model is run on the whole history (c03.hist). Non-trivial = the implementation returned a grading or rejected for a modelled reason; distinct = "
+        "alternating lengths, reverse first) and random ones; the model is run on the whole history (c03.hist). Round 3: histories also "
+        "request copy_preserving(inverted=0/1) copies (default and size-preserving chops), evaluate them and then the chop itself "
+        "again; every grading case also reads the text of Grading.description and Grading.inverted.description and compares the "
+        "written numbers with the specification (relative 1e-12). Non-trivial = the implementation returned a grading or rejected for a modelled reason; distinct = "
         "different (length, parameters)."
     )
     assumptions = [
@@ -468,6 +471,12 @@ class C03(core.Check):
                 out.append({"kind": "history", "L": L, "given": gg, "ops": [["calc", L], ["calc", L], ["invert"], ["invert"], ["calc", L]]})
                 out.append({"kind": "history", "L": L, "given": gg, "ops": [["calc", L], ["calc", 2 * L], ["calc", L], ["invert"], ["calc", 2 * L], ["calc", L]]})
                 out.append({"kind": "history", "L": L, "given": gg, "ops": [["invert"], ["calc", L], ["invert"], ["calc", L]]})
+                # round 3: a (reversed) preserving copy is requested in between: the chop itself must not change
+                out.append({"kind": "history", "L": L, "given": gg, "ops": [["calc", L], ["copy", 1, L], ["calc", L], ["copy", 1, L], ["copy", 0, L], ["calc", L]]})
+                for pres in ("start_size", "end_size"):
+                    if pres in gg:
+                        out.append({"kind": "history", "L": L, "given": gg, "preserve": pres,
+                                    "ops": [["calc", L], ["copy", 1, L], ["calc", L], ["invert"], ["calc", L], ["copy", 1, L], ["calc", L]]})
         for g in ({"count": 5, "c2c_expansion": 0.0}, {"start_size": 0.1, "total_expansion": 0.0}, {"count": 3, "start_size": 0.1, "c2c_expansion": 0.0}):
             out.append({"kind": "history", "L": 1.0, "given": dict(g), "ops": [["invert"], ["calc", 1.0], ["invert"], ["calc", 1.0]], "boundary": True})
         return out
@@ -485,6 +494,9 @@ class C03(core.Check):
             r = rng.random()
             if r < 0.45:
                 ops.append(["calc", L])
+                if rng.random() < 0.4:
+                    ops.append(["copy", rng.randrange(2), L if rng.random() < 0.8 else other])
+                    ops.append(["calc", L])
             elif r < 0.6:
                 ops.append(["calc", other])
             elif r < 0.85 or not cur:
@@ -501,7 +513,11 @@ class C03(core.Check):
                 ops.append(["calc", L])
         if not any(o[0] == "calc" for o in ops):
             ops.append(["calc", L])
-        return {"kind": "history", "L": L, "given": base["given"], "ops": ops}
+        case = {"kind": "history", "L": L, "given": base["given"], "ops": ops}
+        sizes = [k for k in ("start_size", "end_size") if k in base["given"]]
+        if sizes and rng.random() < 0.3:
+            case["preserve"] = rng.choice(sizes)
+        return case
 
     def _gen_boundary(self, rng: random.Random) -> dict:
         L = rng.choice([1.0, 0.25, 40.0])
@@ -582,11 +598,24 @@ class C03(core.Check):
                     return {"ok": False, "err": type(e).__name__, "msg": str(e)[:120]}
         if case["kind"] == "history":
             try:
-                chop = Chop(**_given_kwargs(case["given"]))
+                extra = {"preserve": case["preserve"]} if "preserve" in case else {}
+                chop = Chop(**_given_kwargs(case["given"]), **extra)
             except Exception as e:
                 return {"ctor": type(e).__name__}
             steps = []
             for op in case["ops"]:
+                if op[0] == "copy":
+                    before = _fields(chop)
+                    try:
+                        with warnings.catch_warnings():
+                            warnings.simplefilter("ignore")
+                            c = chop.copy_preserving(inverted=bool(op[1]))
+                    except Exception as e:
+                        steps.append({"op": "copy", "err": type(e).__name__})
+                        continue
+                    steps.append({"op": "copy", "err": None, "same_object": c is chop, "copy_fields": _fields(c), "L": op[2],
+                                  "run": _calc(c, op[2]), "orig_before": before, "orig_after": _fields(chop)})
+                    continue
                 if op[0] == "calc":
                     steps.append({"op": "calc", "L": op[1], "run": _calc(chop, op[1])})
                 elif op[0] == "set":
@@ -665,10 +694,22 @@ class C03(core.Check):
                 break
         spec = [[_num(d[0]), d[1], _num(d[2])] for d in g.specification]
         res: Dict[str, Any] = {"rows": rows, "spec": spec, "n_spec": len(g.specification), "defined": bool(g.is_defined)}
+
+        def written(gr):
+            """the text blockMesh gets (Grading.description), or the exception class"""
+            with warnings.catch_warnings():
+                warnings.simplefilter("ignore")
+                try:
+                    return {"text": str(gr.description)}
+                except Exception as e:
+                    return {"err": type(e).__name__}
+
+        res["descr"] = written(g)
         try:
             gi = g.inverted
             res["inv"] = [[_num(d[0]), d[1], _num(d[2])] for d in gi.specification]
             res["inv_same_object"] = gi is g
+            res["inv_descr"] = written(gi)
             res["count"] = g.count
             res["inv_count"] = gi.count
             res["orig_after"] = [[_num(d[0]), d[1], _num(d[2])] for d in g.specification]
@@ -798,6 +839,16 @@ class C03(core.Check):
                     return []
                 orc, tol, _ = self._oracle_and_tol(st["run"])
                 parts.append(f"calc|{_rat(st['L'])}|{orc}|{tol}")
+            elif st["op"] == "copy":
+                op = case["ops"][len(parts)]
+                if st["err"]:
+                    parts.append(f"copy|{int(bool(op[1]))}|{_rat(op[2])}|-|-|-")
+                    continue
+                obs = _fields_arg(st["copy_fields"])
+                if obs is None or self._too_large(st["run"]):
+                    return []
+                orc, tol, _ = self._oracle_and_tol(st["run"])
+                parts.append(f"copy|{int(bool(op[1]))}|{_rat(op[2])}|{orc}|{tol}|{obs}")
             elif st["op"] == "set":
                 op = case["ops"][len(parts)]
                 parts.append(f"set|{op[1]}|{op[2] if isinstance(op[2], int) else _rat(op[2])}")
@@ -806,7 +857,7 @@ class C03(core.Check):
                 if obs is None:
                     return []
                 parts.append(f"inv|{obs}")
-        return [("hist", f"c03.hist {arg} " + ";".join(parts))]
+        return [("hist", f"c03.hist {arg} " + ";".join(parts) + (f" {case['preserve']}" if "preserve" in case else ""))]
 
     def _tagged(self, case: dict, impl: Any) -> List[Tuple[str, str]]:
         if case["kind"] == "rel":
@@ -835,6 +886,7 @@ class C03(core.Check):
         spec = ",".join(f"{d[0]}:{d[1]}:{d[2]}" for d in impl["spec"]) if impl["spec"] else "-"
         if all(isinstance(d[0], str) and isinstance(d[2], str) and isinstance(d[1], int) and d[1] >= 0 for d in impl["spec"]):
             reqs.append(("ginv", f"c03.ginv {spec}"))
+            reqs.append(("descr", f"c03.descr {spec}"))
         return reqs
 
     def requests(self, case: dict, impl: Any) -> List[str]:
@@ -870,6 +922,51 @@ class C03(core.Check):
                 arg = 1 - LL / size * (1 - c) if e["rel"].startswith("count<start") else 1 + LL / size * (1 - c) / c
                 return abs(arg) < Fraction(1, 10**9)
         return False
+
+    @staticmethod
+    def _parse_written(text: str) -> Optional[List[Tuple[Optional[float], Optional[int], float]]]:
+        """'((l n e)(l n e))' or 'e' -> [(length ratio, count, expansion)]; None when the text has another shape"""
+        import re
+
+        t = text.strip()
+        try:
+            if not t.startswith("("):
+                return [(None, None, float(t))]
+            if not re.fullmatch(r"\((\([^()]+\))+\)", t):
+                return None
+            out = []
+            for m in re.findall(r"\(([^()]+)\)", t):
+                a, b, c = m.split()
+                n = float(b)
+                if n != int(n):
+                    return None
+                out.append((float(a), int(n), float(c)))
+            return out
+        except ValueError:
+            return None
+
+    def _cmp_written(self, descr: dict, ans: str) -> Optional[str]:
+        tok = ans.split()
+        if "err" in descr:
+            return None if tok[0] == "err" else f"description raises {descr['err']}, model answers {ans[:120]}"
+        if tok[0] != "ok":
+            return f"description is {descr['text'][:80]!r}, model answers {ans[:120]}"
+        got = self._parse_written(descr["text"])
+        if got is None:
+            return f"description {descr['text'][:120]!r} is not a number or a list of (ratio count expansion)"
+        if tok[1] == "single":
+            want = [(None, None, Fraction(tok[2]))]
+        else:
+            want = [(Fraction(x.split(":")[0]), int(x.split(":")[1]), Fraction(x.split(":")[2])) for x in tok[2].split(",")]
+        if len(got) != len(want):
+            return f"description has {len(got)} divisions, model {len(want)}"
+        for g, w in zip(got, want):
+            if (g[0] is None) != (w[0] is None) or g[1] != w[1]:
+                return f"description division {g}, model {w}"
+            for a, b in ((g[0], w[0]), (g[2], w[2])):
+                if a is not None and not self._close(Fraction(a), Fraction(b), 1e-12):
+                    return f"description writes {a!r}, the specification holds {float(b)!r}"
+        return None
 
     def _cmp_calc(self, run: dict, ans: str, what: str, L: float = 1.0) -> Optional[str]:
         tok = ans.split()
@@ -963,6 +1060,20 @@ class C03(core.Check):
                     why = self._cmp_calc(st["run"], ans, f"history {case['ops']} step {i} calculate({st['L']})", st["L"])
                     if why:
                         return why
+                elif st["op"] == "copy":
+                    if st["err"]:
+                        if not ans.startswith("nocopy"):
+                            return f"history step {i}: copy_preserving raises {st['err']}, model answers {ans[:120]}"
+                        continue
+                    if st["orig_before"] != st["orig_after"]:
+                        return f"history step {i}: copy_preserving changed the chop it was called on: {st['orig_before']} -> {st['orig_after']}"
+                    if ans.startswith("nocopy"):
+                        continue  # the last calculate raised: partial results are not modelled
+                    if ans.startswith("fail"):
+                        return f"history step {i}: copy_preserving returns {st['copy_fields']}, model {ans[:200]}"
+                    why = self._cmp_calc(st["run"], ans, f"history {case['ops']} step {i} copy.calculate({st['L']})", st["L"])
+                    if why:
+                        return why
                 elif st["op"] == "set":
                     mv = self._parse_vals(ans.split()[1:]) if ans.startswith("ok") else None
                     for k in KEYS:
@@ -1041,6 +1152,10 @@ class C03(core.Check):
                             return f"add_chop: model rejects the length ratio, implementation {row['err']} after {len(row['log'])} calls"
                     elif (failing or "None") != at:
                         return f"add_chop raises {row['err']} in {failing}, model in {at}"
+            elif tag == "descr":
+                why = self._cmp_written(impl["descr"], ans)
+                if why:
+                    return why
             elif tag == "ginv":
                 if "inv_err" in impl:
                     if not ans.startswith("err"):
@@ -1270,6 +1385,37 @@ class C03(core.Check):
         prev = None  # (length, parameters, run, number of inversions so far)
         flips = 0
         for i, (op, st) in enumerate(zip(case["ops"], impl["steps"])):
+            if op[0] == "copy":
+                # the reversed (or plain) copy is a new chop; asking for it must leave the chop itself alone
+                if st["err"]:
+                    continue
+                if st["orig_before"] != st["orig_after"]:
+                    out.append({"site": "Chop.copy_preserving:changes-the-chop-it-is-called-on",
+                                "what": f"steps {case['ops'][: i + 1]} on one Chop({case['given']}): fields {st['orig_before']} -> {st['orig_after']}"
+                                        f"{' (the same object is returned)' if st['same_object'] else ''}"})
+                    return out
+                crun = st["run"]
+                cf = {k: (int(Fraction(v)) if k == "count" else float(Fraction(v))) for k, v in st["copy_fields"].items()
+                      if isinstance(v, str)}
+                if len(cf) == 2:
+                    single = self._oracle_chop(op[2], cf, {"run": crun}, False, reversal=False)
+                    for v in single:
+                        v["what"] = f"copy_preserving(inverted={bool(op[1])}) after {case['ops'][:i]} on Chop({case['given']}): " + v["what"]
+                    out.extend(single)
+                    if single:
+                        return out
+                consistent = "count" in cur or (case.get("preserve", "c2c_expansion") == "c2c_expansion" and len(cur) == 2
+                                                and "c2c_expansion" in cur and "total_expansion" not in cur)
+                if prev is not None and prev[3] == flips and prev[0] == op[2] and prev[2]["ok"] and crun["ok"] and consistent and len(cur) <= 2:
+                    n1, n2 = prev[2]["count"], crun["count"]
+                    T1, T2 = float(Fraction(prev[2]["total"])), float(Fraction(crun["total"]))
+                    want = -math.log(T1) if op[1] else math.log(T1)
+                    if n1 != n2 or not (T2 > 0 and abs(math.log(T2) - want) <= 2e-5):
+                        out.append({"site": f"Chop.copy_preserving[{self._pairname(cur)}]:copy-does-not-reproduce-the-chop" + ("-reversed" if op[1] else ""),
+                                    "what": f"steps {case['ops'][: i + 1]} on Chop({case['given']}): chop ({n1}, {T1}), copy ({n2}, {T2})",
+                                    "observed": [n2, T2], "expected": [n1, math.exp(want)]})
+                        return out
+                continue
             if op[0] == "set":
                 cur = dict(cur)
                 cur[op[1]] = op[2]
@@ -1511,6 +1657,33 @@ class C03(core.Check):
                 out.append({"site": "Grading.inverted:raises", "what": f"read after an addition: {row['mid_read_err']}"})
         if impl["n_spec"] != n_ok:
             out.append({"site": "Grading.add_chop:number-of-divisions", "what": f"{n_ok} chops accepted, {impl['n_spec']} divisions"})
+        # the written grading (what blockMesh reads) carries the specification to full precision
+        for key, which in (("descr", impl["spec"]), ("inv_descr", impl.get("inv"))):
+            d = impl.get(key)
+            if d is None or which is None:
+                continue
+            where = "Grading.description" if key == "descr" else "Grading.inverted.description"
+            if "err" in d:
+                if which:
+                    out.append({"site": f"{where}:raises-for-a-defined-grading", "what": d["err"]})
+                continue
+            if not which:
+                out.append({"site": f"{where}:undefined-grading-written", "what": d["text"][:80]})
+                continue
+            got = self._parse_written(d["text"])
+            if got is None or len(got) != len(which) or (len(which) == 1) != (got[0][1] is None):
+                out.append({"site": f"{where}:malformed", "what": f"{d['text'][:160]!r} for {len(which)} division(s)"})
+                continue
+            for (q, n, T), row in zip(got, which):
+                Ts = float(Fraction(row[2]))
+                bad = not (math.isfinite(T) and T > 0) or abs(T - Ts) > 1e-12 * abs(Ts)
+                if n is not None:
+                    bad = bad or n != row[1] or abs(q - float(Fraction(row[0]))) > 1e-12 * abs(float(Fraction(row[0])))
+                if bad:
+                    out.append({"site": f"{where}:written-values-differ-from-the-specification",
+                                "what": f"L={L}: written {d['text'][:200]!r}, specification {[[float(Fraction(r[0])), r[1], float(Fraction(r[2]))] for r in which]}",
+                                "observed": [q, n, T], "expected": [float(Fraction(row[0])), row[1], Ts]})
+                    break
         if "inv_err" in impl:
             out.append({"site": "Grading.inverted:raises", "what": impl["inv_err"]})
             return out
@@ -1550,7 +1723,7 @@ class C03(core.Check):
         if case["kind"] == "history":
             if "ctor" in impl:
                 return "history:constructor-raises"
-            shape = "".join({"calc": "c", "invert": "i", "set": "s"}[o[0]] for o in case["ops"])
+            shape = "".join({"calc": "c", "invert": "i", "set": "s", "copy": "p"}[o[0]] for o in case["ops"])
             return f"history:{self._pairname(case['given'])}:{shape[:6]}"
         if case["kind"] == "grading":
             return f"grading:{len(case['chops'])}-chops:" + ("inverted" if "inv" in impl else "error")
